@@ -221,6 +221,7 @@ func runC10(c *Ctx) {
 			{Field: "nbhttp.ClientConn.handlers", Lock: mux, Reads: true, Writes: true},
 			{Field: "nbhttp.ClientConn.closed", Lock: mux, Reads: true, Writes: true},
 			{Field: "nbhttp.ClientConn.conn", Lock: mux, Reads: true, Writes: true},
+			{Field: "nbhttp.ClientConn.heads", Lock: mux, Reads: true, Writes: true},
 		}
 		agg := map[string][2]int{}
 		for _, s := range eng.CheckGuarded(L, c.pkgFuncs("nbhttp"), table, nil) {
@@ -684,6 +685,8 @@ func c10ClientAndPools(c *Ctx) {
 		}
 	}
 	c10RetainSetting(c, "C10.O10")
+	c.Rule("C10.O11", "E9", "an interim response (1xx other than 101) is not the pending request's response: ClientProcessor.OnComplete's delivery sites, evaluated on a grid of status codes, are unreachable for 100/102/103/199 and reachable for final codes; OnStatus consumes no per-request record for them", 2)
+	c10InterimResponses(c)
 }
 
 // c10RetainSetting: every release of a request passes Engine.RetainHTTPBody.
